@@ -87,6 +87,15 @@ TQFine(nu) == CASE nu = 1 -> [v |-> 2136141486, d |-> 3]
                 [] nu = 5 -> [v |-> 363167045, d |-> 7]
                 [] nu = 6 -> [v |-> 245828110, d |-> 7]
                 [] OTHER -> [v |-> 0, d |-> 0]
+\* the largest f32 number below one, p = 1 - 2^-24 (an f64 number as well; (1+p)/2 = 1 - 2^-25)
+PFine2 == [k |-> 1, e |-> 24]
+TQFine2(nu) == CASE nu = 1 -> [v |-> 1068070743, d |-> 2]
+                 [] nu = 2 -> [v |-> 409599982, d |-> 5]
+                 [] nu = 3 -> [v |-> 333215750, d |-> 6]
+                 [] nu = 4 -> [v |-> 1001487730, d |-> 7]
+                 [] nu = 5 -> [v |-> 501458523, d |-> 7]
+                 [] nu = 6 -> [v |-> 322038488, d |-> 7]
+                 [] OTHER -> [v |-> 0, d |-> 0]
 \* degrees of freedom beyond the lattice: reached by replicating the rows of an instance (ReplLaw);
 \* 5000..5005 are consecutive so that every instance (N <= 6) reaches a sample count above 5000
 BigNus == {7, 8, 9, 10, 11, 12, 13, 14, 15, 16, 17, 18, 19, 20, 24, 30, 31, 32, 40, 50, 60, 80, 100, 120, 200, 300, 500, 1000, 1001, 1200, 1500, 2000, 3000, 5000, 5001, 5002, 5003, 5004, 5005}
